@@ -216,6 +216,9 @@ def run_case(case):
                     shutil.rmtree(out, ignore_errors=True)
     # ---- classification: does the codec library alone, without any py7zr code, grow like this?
     for v in viol:
+        if v["key"].startswith(("rss/extract/", "rss/testzip/")) and "DEFLATE64" in case["chain"] and _inflater_alone_grows(case["texture"]):
+            v["key"] = "codec-library/inflate64-decoder-memory"
+            v["what"] = "the inflate64 Inflater alone (no py7zr code) retains memory in proportion to its output for %s data; symptom here: %s" % (case["texture"], v["what"])
         if v["key"].startswith("rss/write/"):
             lib = "pyppmd" if "PPMD" in case["chain"] else ("inflate64" if "DEFLATE64" in case["chain"] else None)
             if lib and _encoder_alone_grows(lib, case["texture"]):
@@ -256,6 +259,38 @@ def _encoder_alone_grows(lib, texture, mib=192) -> bool:
     except Exception:
         pass
     return rise > mib // 2
+
+
+def _inflater_alone_grows(texture, mib=192) -> bool:
+    """Deflate64: compress `mib` MiB with the library, then feed the Inflater alone, in a fresh process
+    (so that memory freed by the compressor cannot hide the growth), in 2000-byte slices and watch the RSS."""
+    import subprocess
+    import sys
+    import tempfile
+
+    import inflate64
+
+    src = GenStream(mib << 20, texture, seed=9)
+    c = inflate64.Deflater()
+    packed = b"".join(c.deflate(src.read(1 << 20)) for _ in range(mib)) + c.flush()
+    code = (
+        "import inflate64,sys\n"
+        "def rss():\n"
+        "    for l in open('/proc/self/status'):\n"
+        "        if l.startswith('VmRSS'): return int(l.split()[1])//1024\n"
+        "p=open(sys.argv[1],'rb').read(); d=inflate64.Inflater(); r0=rss()\n"
+        "for i in range(0,len(p),2000): d.inflate(p[i:i+2000])\n"
+        "print(rss()-r0)\n"
+    )
+    with tempfile.NamedTemporaryFile(prefix="vf-c20-probe-", suffix=".bin") as f:
+        f.write(packed)
+        f.flush()
+        try:
+            out = subprocess.run([sys.executable, "-c", code, f.name], capture_output=True, text=True, timeout=600).stdout.strip()
+            rise = int(out)
+        except Exception:
+            return False
+    return rise > mib // 3
 
 
 def on_abnormal(case, kind, info):
